@@ -27,6 +27,10 @@ PROP = dict(
              cfg={"quick": "MC_Identity_alt.cfg", "thorough": "MC_Identity_alt.cfg"}, budget={"quick": 40, "thorough": 120}, maxwalk=4, tiers=("thorough",)),
         dict(kind="walk", name="IdentityKeys", module="Identity", pkg="types", test="TestVerifC21Identity", harness=["types/c21_identity_test.go"],
              cfg={"quick": "MC_Identity_keys.cfg", "thorough": "MC_Identity_keys.cfg"}, budget={"quick": 40, "thorough": 120}, maxwalk=4, tiers=("thorough",)),
+        dict(kind="walk", name="IdentityLive", module="IdentityLive", pkg="route", test="TestVerifC21Live", harness=["route/c21_live_test.go"],
+             cfg={"quick": "MC_IdentityLive.cfg", "thorough": "MC_IdentityLive_big.cfg"}, budget={"quick": 25, "thorough": 150}, maxwalk=48),
+        dict(kind="walk", name="IdentityLivePairs", module="IdentityLive", pkg="route", test="TestVerifC21Live", harness=["route/c21_live_test.go"],
+             cfg={"quick": "MC_IdentityLive_pairs.cfg", "thorough": "MC_IdentityLive_pairs.cfg"}, budget={"quick": 30, "thorough": 120}, maxwalk=48, tiers=("thorough",)),
         dict(kind="tlc", name="IdentityIdeal", module="Identity", cfg={"quick": None, "thorough": "MC_Identity_ideal.cfg"}, workers=8),
     ],
 )
